@@ -75,7 +75,9 @@ Section EVAL.
   Fixpoint to_string_deep (depth : nat) (d : dloc) : prog string :=
     o <- obj_of d ;;
     match o with
-    | Some (ONum _ (TI _ _) (VI z)) => Ret (dec_of_z z)
+    | Some (ONum tn (TI _ _) (VI z)) =>
+        (* to_string(char) is the one-character string; every other integer prints in decimal *)
+        if String.eqb tn "char" then Ret (String (ascii_of_N (Z.to_N (Z.modulo z 256))) "") else Ret (dec_of_z z)
     | Some (OBool b) => Ret (if b then "true" else "false")
     | Some (OStr s) => Ret s
     | Some (OVec l) =>
@@ -398,6 +400,13 @@ Section EVAL.
     end.
 
   (* v[i]: call_function("[]") -> c.at(index) *)
+  (* std::map order: keys ascending by unsigned byte; an existing key keeps its entry (std::map::insert) *)
+  Fixpoint map_insert (k : string) (v : dloc) (l : list (string * dloc)) : list (string * dloc) :=
+    match l with
+    | [] => [(k, v)]
+    | (k', v') :: r => if String.eqb k k' then l else if string_lt k k' then (k, v) :: l else (k', v') :: map_insert k v r
+    end.
+
   Definition array_call (v i : dloc) : prog dloc :=
     vo <- obj_of v ;; io <- obj_of i ;;
     match vo, z_of_index io with
@@ -408,7 +417,27 @@ Section EVAL.
              | None => throw (EStd "out_of_range" "vector::_M_range_check")
              end
     | Some (OVec _), None => dispatch_error "[]"
-    | Some (OStr _), _ | Some (OMap _), _ => unsup "[] on string/map"
+    | Some (OMap l), _ =>
+        (* std::map<std::string, Boxed_Value>: operator[] of a mutable map; a missing key is entered with an undefined value *)
+        match io with
+        | Some (OStr key) =>
+            dv <- Prim (PGetData v) ;;
+            if d_const dv then dispatch_error "[]"        (* only the non-const operator[] is registered for maps *)
+            else match assoc l key with
+                 | Some d => Ret d
+                 | None => d <- new_undef ;; write_through v (OMap (map_insert key d l)) "[]" ;;; Ret d
+                 end
+        | _ => dispatch_error "[]"
+        end
+    | Some (OStr str), Some z =>
+        (* string `[]` is registered as at(): a char (here: a fresh value; writing through it is not modelled) or out_of_range *)
+        if (z <? 0)%Z then throw (EStd "out_of_range" "basic_string::at")
+        else match get (Z.to_nat z) str with
+             | Some ch => let b := Z.of_N (N_of_ascii ch) in
+                          new_value (ONum "char" (TI 8 true) (VI (if (b <? 128)%Z then b else b - 256)%Z)) true true
+             | None => throw (EStd "out_of_range" "basic_string::at")
+             end
+    | Some (OStr _), None => dispatch_error "[]"
     | _, _ => dispatch_error "[]"
     end.
 
@@ -664,6 +693,23 @@ Section EVAL.
     end.
   Definition eval_inline_array (n : ast) : prog dloc :=
     inline_items (match a_children n with x :: _ => a_children x | [] => [] end) [].
+
+  (* Inline_Map_AST_Node: keys must be strings; values are cloned; a repeated key keeps the first entry; the map value is const *)
+  Fixpoint inline_pairs (l : list ast) (acc : list (string * dloc)) : prog dloc :=
+    match l with
+    | [] => new_value (OMap acc) true false
+    | x :: r =>
+        k <- Ev (child 0 x) ;; ko <- obj_of k ;;
+        match ko with
+        | Some (OStr key) =>
+            v <- Ev (child 1 x) ;;
+            e <- catch_dispatch (clone_if_necessary v) "Can not find appropriate copy constructor or 'clone' while inserting into Map." ;;
+            inline_pairs r (map_insert key e acc)
+        | _ => throw (EStd "bad_boxed_cast" "Cannot perform boxed_cast")
+        end
+    end.
+  Definition eval_inline_map (n : ast) : prog dloc :=
+    inline_pairs (match a_children n with x :: _ => a_children x | [] => [] end) [].
 
   (* ------------------------------------------------------------ functions *)
   Definition has_guard (children : list ast) (offset : nat) : bool :=
@@ -955,6 +1001,7 @@ Section EVAL.
     | KCompiled => eval_compiled n
     | KRanged_For => eval_ranged_for n
     | KInline_Array => eval_inline_array n
+    | KInline_Map => eval_inline_map n
     | KDef => eval_def n
     | KLambda => eval_lambda n
     | KFun_Call => eval_fun_call (negb (String.eqb (a_cls n) "UnusedReturn")) n
